@@ -1,5 +1,6 @@
 import Orb.Proto
 import Orb.MVT
+import Orb.MVTOri
 import Orb.ProtoWire
 
 /-! Driver for C03 (Mapbox Vector Tiles) and the MVT share of C05 (`handleHostile`).
@@ -281,6 +282,30 @@ def hasSingleColl (ls : List Layer) : Bool :=
 def oriAgreeB (ls : List Layer) : Bool :=
   ls.all fun l => l.features.all fun f => (gvalRings f.geom).all fun r => oriFloat r == oriInt r
 
+/-! `ringExtent`, `oriExactDomain` (where the float64 shoelace of `Ring.Orientation` is exact: rings of
+    small own extent at ANY distance from the origin; argument and proved bounds there): Orb/MVTOri.lean -/
+
+/-- every ring of the input inside `oriExactDomain` gets the exact sign from the Float twin -/
+def oriExactHolds (ls : List Layer) : Bool :=
+  ls.all fun l => l.features.all fun f => (gvalRings f.geom).all fun r =>
+    !oriExactDomain r || oriFloat r == oriInt r
+
+/-- some ring OUTSIDE `oriExactDomain` on which the float64 shoelace gives the wrong sign (the
+    class of the known finding regroup-rounding) -/
+def oriRoundsOnBigRing (ls : List Layer) : Bool :=
+  ls.any fun l => l.features.any fun f => (gvalRings f.geom).any fun r =>
+    !oriExactDomain r && oriFloat r != oriInt r
+
+/-- a second-or-later ring of a feature that is small (extent ≤ 64) and far from the origin
+    (some |coordinate| ≥ 2^26): regrouped correctly only by a shoelace that shifts first -/
+def hasFarSmallRing (ls : List Layer) : Bool :=
+  ls.any fun l => l.features.any fun f => ((gvalRings f.geom).drop 1).any fun r =>
+    decide (ringExtent r ≤ 64) && r.any fun p => decide (p.x.natAbs ≥ 2^26 ∨ p.y.natAbs ≥ 2^26)
+
+/-- failure texts carry the model outcome; cut what would be megabytes for a big tile -/
+def cut (s : String) : String :=
+  if s.length > 6000 then (s.take 6000).toString ++ s!" …(cut, {s.length} chars)" else s
+
 /-- an id of the quantifier ("non-negative integer") that `idWF` excludes: ≥ 2^53, where
     `float64(id)` may round -/
 def hasBigId (ls : List Layer) : Bool :=
@@ -346,9 +371,19 @@ def handleRT (inp out : Toks) : String :=
     let modelVT := match mvt with | .ok t => some (showVT t) | _ => none
     let modelU := match mvt with | .ok t => some (showOutcome (unmarshalVTWith oriFloat t).1) | _ => none
     let agree := modelM == mcls && modelVT == implVT && modelU == implU && modelU == implG
-    let modelStr := s!"M {modelM} ; VT {modelVT.getD "-"} ; U {modelU.getD "-"}"
+    let modelStr := cut s!"M {modelM} ; VT {modelVT.getD "-"} ; U {modelU.getD "-"}"
+    -- compression ratio of the tile (section Z: plain length, gzipped length), for the tags
+    let gzTag := match sec "Z" with
+      | some [a, b] =>
+        (match a.toNat?, b.toNat? with
+         | some a, some b =>
+           let q := if b == 0 then 0 else a / b
+           if q ≥ 512 then " gz512" else if q ≥ 128 then " gz128" else if q ≥ 32 then " gz32" else ""
+         | _, _ => "")
+      | _ => ""
     if d != "1" then (if d == "g" then "propfail deterministic gzipped" else "propfail deterministic") else
     if !(layers.all fun l => (layerVals l).all twinOK) then "diff twin f32to64/i2f is not the exact conversion" else
+    if !oriExactHolds layers then "diff twin float shoelace inexact on a ring of small extent (oriExactDomain)" else
     -- the specification: nested collections stand for their members
     let spec := specLayers layers
     if !frac && mvtWF spec then
@@ -364,7 +399,8 @@ def handleRT (inp out : Toks) : String :=
         (if layers.all (fun l => l.features.isEmpty) then "ok triv-empty"
          else if clash then "ok wf negzero"
          else if (layerVals <$> layers).any (fun vs => vs.any isNegZero) then "ok wf lone-negzero"
-         else if hasSingleColl layers then "ok wf coll1" else "ok wf")
+         else if hasFarSmallRing layers then "ok wf far-small-ring" ++ gzTag
+         else if hasSingleColl layers then "ok wf coll1" ++ gzTag else "ok wf" ++ gzTag)
       else
         let why := if mcls != "ok" then "marshal-" ++ mcls else if implU.map normZ != some want then "unmarshal" else "gzipped"
         -- A known class is named ONLY when the implementation does exactly what the model (which
@@ -373,7 +409,7 @@ def handleRT (inp out : Toks) : String :=
         if !agree then s!"propfail roundtrip-unexplained {why} ; diff {modelStr}"
         else if hasMultiColl layers then "propfail collection-members " ++ why
         else if (geomsOf layers).any (fun g => !geomNoDupClose g) then "propfail ring-reclose " ++ why
-        else if !oriAgreeB layers then "propfail regroup-rounding " ++ why
+        else if oriRoundsOnBigRing layers then "propfail regroup-rounding " ++ why
         else "propfail roundtrip " ++ why
     else
       if !agree then "diff " ++ modelStr else
